@@ -6,6 +6,7 @@ package main
 
 import (
 	"bytes"
+	"encoding/csv"
 	"fmt"
 	"strconv"
 	"strings"
@@ -520,29 +521,102 @@ func khCases(r *hx.Rand) {
 
 // ---------------------------------------------------------------- benchstat text vs CSV
 
-// benchstatBoth drives the pipeline of cmd/benchstat/main.go in-process and renders the same
-// Tables both ways.
-func benchstatBoth(paths []string, colBy string) (text, csvOut, warn string, err error) {
+// spanHint replays Format's unstable sort for the table ToText builds from t: the spans of the
+// cells in the order ToText adds them, derived from the Table's data and the real KeyHeader.
+func spanHint(t *benchtab.Table) []int {
+	startCol := func(exp int) int {
+		if exp == 0 {
+			return 1
+		}
+		return 1 + 3 + (exp-1)*6
+	}
+	var spans []int
+	kh := benchproc.NewKeyHeader(t.Cols)
+	nodes := kh.Top
+	for len(nodes) > 0 {
+		var next []*benchproc.KeyHeaderNode
+		for _, n := range nodes {
+			spans = append(spans, startCol(n.Start+n.Len)-startCol(n.Start))
+			next = append(next, n.Children...)
+		}
+		spans = append(spans, 1)
+		nodes = next
+	}
+	for i := range t.Cols {
+		spans = append(spans, 3)
+		if i > 0 {
+			spans = append(spans, 3)
+		}
+	}
+	spans = append(spans, 1)
+	for _, n := range benchtab.VerifCellCounts(t) {
+		for i := 0; i < n; i++ {
+			spans = append(spans, 1)
+		}
+	}
+	return texttab.VerifSpanOrderOf(spans)
+}
+
+// runTable: one benchtab.Table rendered both ways by the real code; the case line carries the
+// cells view for the model.
+func runTable(t *benchtab.Table, tag string) {
+	myid := id
+	id++
+	view := benchtab.VerifView(t)
+	hx.Printf("case %d kind=tbl %s perm=%s start=1 tag=%s\n", myid, view, intsString(spanHint(t)), tag)
+	text := "!panic"
+	func() {
+		defer func() {
+			if e := recover(); e != nil {
+				hx.Printf("crash %d ToText: %v\n", myid, e)
+			}
+		}()
+		var tb bytes.Buffer
+		if err := t.ToText(&tb, false); err != nil {
+			text = "!err"
+			return
+		}
+		text = hx.Hex(tb.Bytes())
+	}()
+	csvOut, warn, n := "!panic", "", 0
+	func() {
+		defer func() {
+			if e := recover(); e != nil {
+				hx.Printf("crash %d ToCSV: %v\n", myid, e)
+			}
+		}()
+		var cb, wb bytes.Buffer
+		w := csv.NewWriter(&cb)
+		n = t.ToCSV(w, 1, &wb)
+		w.Flush()
+		csvOut, warn = hx.Hex(cb.Bytes()), hx.Hex(wb.Bytes())
+	}()
+	hx.Printf("obs %d text=%s csv=%s warn=%s n=%d\n", myid, text, csvOut, warn, n)
+	hx.Printf("sobs %d agree=ok hdr=ok layout=ok\n", myid)
+}
+
+// benchstatTables drives the pipeline of cmd/benchstat/main.go in-process.
+func benchstatTables(paths []string, rowBy, colBy string) (*benchtab.Tables, error) {
 	filter, err := benchproc.NewFilter("*")
 	if err != nil {
-		return
+		return nil, err
 	}
 	var parser benchproc.ProjectionParser
 	tableBy, _, err := parser.ParseWithUnit(".config", filter)
 	if err != nil {
-		return
+		return nil, err
 	}
-	rowBy, err := parser.Parse(".fullname", filter)
+	rowP, err := parser.Parse(rowBy, filter)
 	if err != nil {
-		return
+		return nil, err
 	}
 	colP, err := parser.Parse(colBy, filter)
 	if err != nil {
-		return
+		return nil, err
 	}
 	residue := parser.Residue()
 	thresholds := benchmath.DefaultThresholds
-	stat := benchtab.NewBuilder(tableBy, rowBy, colP, residue)
+	stat := benchtab.NewBuilder(tableBy, rowP, colP, residue)
 	files := benchfmt.Files{Paths: paths, AllowStdin: false, AllowLabels: true}
 	for files.Scan() {
 		switch rec := files.Result(); rec := rec.(type) {
@@ -553,24 +627,31 @@ func benchstatBoth(paths []string, colBy string) (text, csvOut, warn string, err
 			stat.Add(rec)
 		}
 	}
-	if err = files.Err(); err != nil {
-		return
+	if err := files.Err(); err != nil {
+		return nil, err
 	}
-	tables := stat.ToTables(benchtab.TableOpts{Confidence: 0.95, Thresholds: &thresholds, Units: files.Units()})
-	var tb, cb, wb bytes.Buffer
-	if err = tables.ToText(&tb, false); err != nil {
-		return
-	}
-	if err = tables.ToCSV(&cb, &wb); err != nil {
-		return
-	}
-	return tb.String(), cb.String(), wb.String(), nil
+	return stat.ToTables(benchtab.TableOpts{Confidence: 0.95, Thresholds: &thresholds, Units: files.Units()}), nil
 }
 
-type benchGen struct {
-	name  string
-	base  float64
-	units []string
+func sampleLines(sb *strings.Builder, r *hx.Rand, name string, scale float64, tags map[string]bool) {
+	n := 1 + r.Intn(7)
+	if r.Chance(1, 3) {
+		n = 6 + r.Intn(5) // enough samples for a significant difference
+	}
+	base := []float64{3.2, 1718, 1.5e6, 2.4e9, 0.85, 99.99, 1023, 47}[r.Intn(8)] * scale
+	noise := []float64{0, 0.001, 0.02, 0.3}[r.Intn(4)]
+	units := r.Intn(3)
+	for i := 0; i < n; i++ {
+		v := base * (1 + noise*(r.Float()-0.5))
+		fmt.Fprintf(sb, "Benchmark%s-8 \t%d\t%s ns/op", name, 1+r.Intn(1000), strconv.FormatFloat(v, 'g', 4+r.Intn(4), 64))
+		if units >= 1 && tags["units"] {
+			fmt.Fprintf(sb, "\t%d B/op", r.Intn(5000000))
+			if units >= 2 {
+				fmt.Fprintf(sb, "\t%d allocs/op", r.Intn(30))
+			}
+		}
+		sb.WriteString("\n")
+	}
 }
 
 func genFile(r *hx.Rand, benches []string, pkgs []string, scale float64, tags map[string]bool) string {
@@ -581,120 +662,306 @@ func genFile(r *hx.Rand, benches []string, pkgs []string, scale float64, tags ma
 			fmt.Fprintf(&sb, "pkg: %s\n", pkg)
 		}
 		for _, b := range benches {
-			n := 1 + r.Intn(7)
-			if r.Chance(1, 3) {
-				n = 6 + r.Intn(5) // enough samples for a significant difference
-			}
-			base := []float64{3.2, 1718, 1.5e6, 2.4e9, 0.85, 99.99, 1023, 47}[r.Intn(8)] * scale
-			noise := []float64{0, 0.001, 0.02, 0.3}[r.Intn(4)]
-			for i := 0; i < n; i++ {
-				v := base * (1 + noise*(r.Float()-0.5))
-				fmt.Fprintf(&sb, "Benchmark%s-8 \t%d\t%s ns/op", b, 1+r.Intn(1000), strconv.FormatFloat(v, 'g', 4+r.Intn(4), 64))
-				if r.Chance(1, 3) {
-					tags["units"] = true
-					fmt.Fprintf(&sb, "\t%d B/op", r.Intn(5000000))
-					if r.Bool() {
-						fmt.Fprintf(&sb, "\t%d allocs/op", r.Intn(30))
-					}
-				}
-				sb.WriteString("\n")
-			}
+			sampleLines(&sb, r, b, scale, tags)
 		}
 	}
 	return sb.String()
 }
 
+// scenario = input files and projections
+type scenario struct {
+	paths        []string
+	rowBy, colBy string
+	tags         map[string]bool
+}
+
+// filesScenario: columns are files (the classic benchstat use), optional extra header level.
+func filesScenario(r *hx.Rand, dir string) scenario {
+	tags := map[string]bool{}
+	if r.Chance(1, 3) {
+		tags["units"] = true
+	}
+	nfiles := 1 + r.Intn(3)
+	all := []string{"A", "Encode/size=10", "Decode", "B/k=1/j=x", "C"}
+	pool := all[:1+r.Intn(4)]
+	pkgs := []string{""}
+	if r.Chance(1, 4) {
+		tags["tables"] = true
+		pkgs = []string{"p/one", "p/two"}
+	}
+	f14 := nfiles >= 2 && r.Chance(1, 3)
+	var paths []string
+	labels := []string{"old", "new", "exp-with-a-long-name"}
+	for f := 0; f < nfiles; f++ {
+		var benches []string
+		for _, b := range pool {
+			if r.Chance(5, 6) {
+				benches = append(benches, b)
+			} else {
+				tags["missing"] = true
+			}
+		}
+		if f14 {
+			// the F14 shape: the baseline shares no benchmark with the later columns
+			tags["nodelta"] = true
+			if f == 0 {
+				benches = []string{"A"}
+			} else {
+				benches = []string{"Zed", "Y"}[:1+r.Intn(2)]
+			}
+		}
+		scale := 1.0
+		if r.Chance(1, 2) {
+			scale = []float64{0.5, 0.9, 1.1, 2, 1000}[r.Intn(5)]
+		}
+		p := filepath.Join(dir, fmt.Sprintf("f%d.txt", f))
+		os.WriteFile(p, []byte(genFile(r, benches, pkgs, scale, tags)), 0o666)
+		if r.Chance(2, 3) {
+			paths = append(paths, labels[f]+"="+p)
+		} else {
+			paths = append(paths, p)
+		}
+	}
+	colBy := ".file"
+	switch r.Intn(5) {
+	case 0:
+		tags["levels2"] = true
+		colBy = "goos,.file"
+	case 1:
+		if len(pkgs) > 1 {
+			tags["levels2"] = true
+			colBy = "pkg,.file"
+		}
+	}
+	if nfiles > 1 {
+		tags["compare"] = true
+	}
+	return scenario{paths, ".fullname", colBy, tags}
+}
+
+// treeScenario: columns are keyed by 2-4 keys (sub-name keys /a /b /c /d, optionally led by a
+// file-config key or followed by .file): an unbalanced tree whose nodes have 1..4 children.
+// Rows optionally by several keys too.
+func treeScenario(r *hx.Rand, dir string) scenario {
+	tags := map[string]bool{}
+	if r.Chance(1, 4) {
+		tags["units"] = true
+	}
+	depth := 2 + r.Intn(3)
+	nameKeys := []string{"a", "b", "c", "d"}[:depth]
+	cfgLead := r.Chance(1, 4) // the top level is a file-config key "cfg" instead of /a
+	// leaves of a random unbalanced tree, at most 9
+	var leaves [][]string
+	var rec func(prefix []string, level int)
+	rec = func(prefix []string, level int) {
+		if level == depth {
+			leaves = append(leaves, append([]string(nil), prefix...))
+			return
+		}
+		k := 1 + r.Intn(4)
+		if level > 0 && r.Chance(1, 3) {
+			k = 1
+		}
+		for i := 0; i < k && len(leaves) < 9; i++ {
+			v := fmt.Sprintf("%s%d", strings.ToUpper(nameKeys[level]), i+1)
+			if r.Chance(1, 8) {
+				v = fmt.Sprintf("%s%d", strings.ToUpper(nameKeys[level]), 1+r.Intn(2)) // repeats under different parents
+			}
+			rec(append(prefix, v), level+1)
+		}
+	}
+	rec(nil, 0)
+	multiRow := r.Chance(1, 2)
+	rowNames := []string{"X", "Yy", "Zed"}[:1+r.Intn(3)]
+	rowKeys := []string{""}
+	if multiRow {
+		tags["multirow"] = true
+		rowKeys = []string{"1", "2", "30"}[:1+r.Intn(3)]
+	}
+	var sb strings.Builder
+	sb.WriteString("goos: linux\n")
+	curCfg := ""
+	for _, rn := range rowNames {
+		for _, rk := range rowKeys {
+			for _, leaf := range leaves {
+				if r.Chance(1, 7) {
+					tags["missing"] = true
+					continue
+				}
+				name := rn
+				for i, v := range leaf {
+					if i == 0 && cfgLead {
+						if v != curCfg {
+							fmt.Fprintf(&sb, "cfg: %s\n", v)
+							curCfg = v
+						}
+						continue
+					}
+					name += "/" + nameKeys[i] + "=" + v
+				}
+				if rk != "" {
+					name += "/r=" + rk
+				}
+				sampleLines(&sb, r, name, 1, tags)
+			}
+		}
+	}
+	p := filepath.Join(dir, "tree.txt")
+	os.WriteFile(p, []byte(sb.String()), 0o666)
+	paths := []string{p}
+	var cols []string
+	for i, k := range nameKeys {
+		if i == 0 && cfgLead {
+			cols = append(cols, "cfg")
+		} else {
+			cols = append(cols, "/"+k)
+		}
+	}
+	if r.Chance(1, 5) && depth < 4 {
+		// a second file with the same benchmarks: .file as the innermost level
+		p2 := filepath.Join(dir, "tree2.txt")
+		os.WriteFile(p2, []byte(sb.String()), 0o666)
+		paths = []string{"one=" + p, "two=" + p2}
+		cols = append(cols, ".file")
+		depth++
+	}
+	tags[fmt.Sprintf("levels%d", depth)] = true
+	if len(leaves) > 1 {
+		tags["compare"] = true
+	}
+	rowBy := ".fullname"
+	if multiRow {
+		rowBy = ".name,/r"
+	}
+	return scenario{paths, rowBy, strings.Join(cols, ","), tags}
+}
+
+func tagList(tags map[string]bool, order []string) string {
+	var tl []string
+	for _, k := range order {
+		if tags[k] {
+			tl = append(tl, k)
+		}
+	}
+	if len(tl) == 0 {
+		return "trivial"
+	}
+	return strings.Join(tl, "+")
+}
+
+var e2eTags = []string{"compare", "nodelta", "missing", "tables", "levels2", "levels3", "levels4", "levels5", "multirow", "units", "warn"}
+
+func runScenario(sc scenario) {
+	myid := id
+	id++
+	tables, err := benchstatTables(sc.paths, sc.rowBy, sc.colBy)
+	if err != nil {
+		hx.Printf("case %d kind=e2e err=%s tag=err\n", myid, hx.HexS(err.Error()))
+		return
+	}
+	text := "!panic"
+	var crash string
+	func() {
+		defer func() {
+			if e := recover(); e != nil {
+				crash = fmt.Sprint(e)
+			}
+		}()
+		var tb bytes.Buffer
+		if err := tables.ToText(&tb, false); err != nil {
+			text = "!err"
+			return
+		}
+		text = tb.String()
+	}()
+	var cb, wb bytes.Buffer
+	func() {
+		defer func() {
+			if e := recover(); e != nil {
+				crash += " ToCSV:" + fmt.Sprint(e)
+			}
+		}()
+		tables.ToCSV(&cb, &wb)
+	}()
+	if strings.Contains(text, "¹") {
+		sc.tags["warn"] = true
+	}
+	tag := tagList(sc.tags, e2eTags)
+	if crash != "" {
+		hx.Printf("case %d kind=e2e row=%s col=%s csv=%s warn=%s tag=%s\n", myid, hx.HexS(sc.rowBy), hx.HexS(sc.colBy), hx.Hex(cb.Bytes()), hx.Hex(wb.Bytes()), tag)
+		hx.Printf("crash %d %s\n", myid, strings.ReplaceAll(crash, "\n", " "))
+	} else {
+		hx.Printf("case %d kind=e2e row=%s col=%s text=%s csv=%s warn=%s tag=%s\n", myid, hx.HexS(sc.rowBy), hx.HexS(sc.colBy), hx.HexS(text), hx.Hex(cb.Bytes()), hx.Hex(wb.Bytes()), tag)
+		hx.Printf("sobs %d agree=ok hdr=ok layout=ok\n", myid)
+	}
+	// every table on its own: model rendering vs real rendering
+	for _, t := range tables.Tables {
+		runTable(t, tag)
+	}
+}
+
 func e2eCases(r *hx.Rand) {
 	dir := filepath.Join("e2e", os.Getenv("VERIF_SHARD"))
 	os.MkdirAll(dir, 0o777)
+	// the coordinator's witness: three header levels, a non-leaf node preceded by a node with more children
+	os.WriteFile(filepath.Join(dir, "w.txt"), []byte("BenchmarkX/a=A1/b=B1/c=C1-8 1 1 ns/op\nBenchmarkX/a=A1/b=B1/c=C2-8 1 2 ns/op\nBenchmarkX/a=A1/b=B2/c=C3-8 1 3 ns/op\n"), 0o666)
+	runScenario(scenario{[]string{filepath.Join(dir, "w.txt")}, ".fullname", "/a,/b,/c", map[string]bool{"levels3": true, "compare": true}})
 	n := hx.N(150, 3000)
 	for i := 0; i < n; i++ {
-		tags := map[string]bool{}
-		nfiles := 1 + r.Intn(3)
-		all := []string{"A", "Encode/size=10", "Decode", "B/k=1/j=x", "C"}
-		nb := 1 + r.Intn(4)
-		pool := all[:nb]
-		pkgs := []string{""}
-		if r.Chance(1, 4) {
-			tags["tables"] = true
-			pkgs = []string{"p/one", "p/two"}
+		if i%2 == 0 {
+			runScenario(treeScenario(r, dir))
+		} else {
+			runScenario(filesScenario(r, dir))
 		}
-		f14 := nfiles >= 2 && r.Chance(1, 3)
-		var paths []string
-		labels := []string{"old", "new", "exp-with-a-long-name"}
-		for f := 0; f < nfiles; f++ {
-			var benches []string
-			for _, b := range pool {
-				if r.Chance(5, 6) {
-					benches = append(benches, b)
-				} else {
-					tags["missing"] = true
-				}
-			}
-			if f14 {
-				// the F14 shape: the baseline shares no benchmark with the later columns
-				tags["nodelta"] = true
-				if f == 0 {
-					benches = []string{"A"}
-				} else {
-					benches = []string{"Zed", "Y"}[:1+r.Intn(2)]
-				}
-			}
-			scale := 1.0
-			if r.Chance(1, 2) {
-				scale = []float64{0.5, 0.9, 1.1, 2, 1000}[r.Intn(5)]
-			}
-			p := filepath.Join(dir, fmt.Sprintf("f%d.txt", f))
-			os.WriteFile(p, []byte(genFile(r, benches, pkgs, scale, tags)), 0o666)
-			if r.Chance(2, 3) {
-				paths = append(paths, labels[f]+"="+p)
-			} else {
-				paths = append(paths, p)
-			}
+	}
+}
+
+// ---------------------------------------------------------------- header-only tables
+
+// hdrCases: benchtab.Table values with column keys only (no rows): ToText prints the header
+// levels and the unit line, which the model assembles from its KeyHeader.
+func hdrCases(r *hx.Rand) {
+	run := func(vals [][]string, nf int, unit string, tag string) {
+		names := []string{"f0", "f1", "f2", "f3", "f4"}[:nf]
+		var pp benchproc.ProjectionParser
+		proj, err := pp.Parse(strings.Join(names, ","), nil)
+		if err != nil {
+			panic(err)
 		}
-		colBy := ".file"
-		switch r.Intn(5) {
-		case 0:
-			tags["levels"] = true
-			colBy = "goos,.file"
-		case 1:
-			if len(pkgs) > 1 {
-				tags["levels"] = true
-				colBy = "pkg,.file"
+		var keys []benchproc.Key
+		for _, v := range vals {
+			res := &benchfmt.Result{Name: benchfmt.Name("X")}
+			for j, name := range names {
+				res.SetConfig(name, v[j])
+			}
+			keys = append(keys, proj.Project(res))
+		}
+		t := &benchtab.Table{Unit: unit, Cols: keys, Cells: map[benchtab.TableKey]*benchtab.TableCell{}, Summary: map[benchproc.Key]*benchtab.TableSummary{}, SummaryLabel: "geomean"}
+		if len(keys) == 0 {
+			// ToCSV indexes t.Cols[0]; a table without columns is never built by the Builder
+			return
+		}
+		runTable(t, tag)
+	}
+	run([][]string{{"A1", "B1", "C1"}, {"A1", "B1", "C2"}, {"A1", "B2", "C3"}}, 3, "sec/op", "levels3+unbalanced")
+	run([][]string{{"a"}, {"b"}, {"a"}}, 1, "B/op", "repeat")
+	n := hx.N(500, 10000)
+	for i := 0; i < n; i++ {
+		nf := 1 + r.Intn(5)
+		nk := 1 + r.Intn(9)
+		alpha := 1 + r.Intn(4)
+		vals := make([][]string, nk)
+		for a := range vals {
+			vals[a] = make([]string, nf)
+			for b := range vals[a] {
+				vals[a][b] = []string{"a", "bb", "", "é", "long value", "c"}[r.Intn(alpha)]
+			}
+			if a > 0 && r.Chance(2, 3) { // long common prefixes: deep unbalanced trees
+				copy(vals[a], vals[a-1][:r.Intn(nf+1)])
 			}
 		}
-		if nfiles > 1 {
-			tags["compare"] = true
-		}
-		func() {
-			defer func() {
-				if e := recover(); e != nil {
-					hx.Printf("case %d kind=e2e tag=crash\n", id)
-					hx.Printf("crash %d %v\n", id, e)
-				}
-			}()
-			text, csvOut, warn, err := benchstatBoth(paths, colBy)
-			if err != nil {
-				hx.Printf("case %d kind=e2e err=%s tag=err\n", id, hx.HexS(err.Error()))
-				return
-			}
-			if strings.Contains(text, "¹") {
-				tags["warn"] = true
-			}
-			var tl []string
-			for _, k := range []string{"compare", "nodelta", "missing", "tables", "levels", "units", "warn"} {
-				if tags[k] {
-					tl = append(tl, k)
-				}
-			}
-			tag := "trivial"
-			if len(tl) > 0 {
-				tag = strings.Join(tl, "+")
-			}
-			hx.Printf("case %d kind=e2e text=%s csv=%s warn=%s tag=%s\n", id, hx.HexS(text), hx.HexS(csvOut), hx.HexS(warn), tag)
-			hx.Printf("sobs %d agree=ok hdr=ok layout=ok\n", id)
-		}()
-		id++
+		tag := fmt.Sprintf("levels%d", nf)
+		run(vals, nf, hx.Pick(r, []string{"sec/op", "B/op", "x", ""}), tag)
 	}
 }
 
@@ -704,4 +971,5 @@ func main() {
 	tabCases(r)
 	khCases(hx.NewRand(1016))
 	e2eCases(hx.NewRand(2016))
+	hdrCases(hx.NewRand(3016))
 }
